@@ -2,7 +2,7 @@
    Only statements, each closed by [exact] of a lemma proved elsewhere, with Print Assumptions. *)
 From Coq Require Import List NArith Bool.
 Import ListNotations.
-Require Import Parser SBase SFetch Pipe Grammar C02base C02tail C02run C02anchors C02anchorsRun.
+Require Import Parser SBase SFetch Pipe Grammar C02base C02tail C02run C02anchors C02anchorsRun ParseNode ParseNodeTie.
 
 (* One step of the pull parser, from any state satisfying the stack/grammar invariant and for any
    remaining token stream: it never panics, the event it yields is accepted by the grammar acceptor,
@@ -33,3 +33,14 @@ Example C02_arun_rejects_reuse : arun 0 [EScalar [] Plain 1 None; EScalar [] Pla
 Proof. reflexivity. Qed.
 Example C02_arun_rejects_forward_alias : arun 0 [EAlias 1; EScalar [] Plain 1 None] = None.
 Proof. reflexivity. Qed.
+
+(* TIE BY TRANSLATION.  The node dispatcher of the model is the one of the source: Gen/ParseNode.v is regenerated on
+   every run from the node-content `match` of Parser::parse_node (token kind, guard -> event kind, next state), and for
+   every parser state and token the model's node_content does exactly what that table says.  An edit of an arm of the
+   Rust match (pattern, guard, event or follow-up state) changes the generated table and breaks this obligation. *)
+Theorem C02_node_dispatcher_is_source : forall (p : parser) (aid : N) (tg : option tag) (block indentless : bool),
+  node_content p aid tg block indentless =
+  (do (t, p') <- peek p;
+   run_nact (node_dispatch (kind_of (snd t)) block indentless (has_props aid tg)) p' (fst t) (snd t) aid tg).
+Proof. exact tbl_node_content. Qed.
+Print Assumptions C02_node_dispatcher_is_source.
